@@ -204,6 +204,7 @@ Section Eval.
     match p, t with [], _ => true | c1 :: p', c2 :: t' => (c1 =? c2) && is_prefix_of p' t' | _, _ => false end.
 
   Definition text_of (s : cst) (l : line ustring) (e : nexp) : ustring := str_val (nvalue s l e).
+  Definition is_vnone (v : value) : bool := match v with VNone => true | _ => false end.
 
   Definition is_blank_text (t : ustring) : bool := match strip t with [] => true | _ => false end.
 
@@ -213,6 +214,7 @@ Section Eval.
         (* AboveBelow: numbers when both operands are numbers; D2: only when both are Python numbers of the same type *)
         if q_strcmp q && ((snd (neval s l a) =? 0) || negb (snd (neval s l a) =? snd (neval s l c)))
         then cmp_str o (text_of s l a) (text_of s l c)
+        else if xorb (is_vnone (nvalue s l a)) (is_vnone (nvalue s l c)) then false      (* exactly one operand is None (a cell the record lacks): not above, not below *)
         else cmp_num o (fst (neval s l a)) (fst (neval s l c))
     | BCmpS o a c => cmp_str o (seval s l a) (seval s l c)
     | BEq a c => fst (neval s l a) =? fst (neval s l c)
